@@ -61,3 +61,30 @@ Definition visit_entry (body : list estmt) (st : omap * list oid) (e : link * N)
 (** one pass over a table *)
 Definition g_visit_entries (body : list estmt) (t : table) (own : omap) (pushed : list oid) : omap * list oid :=
   fold_left (visit_entry body) t (own, pushed).
+
+(** ** Syntax of the control skeletons of [cycle_refs] and [Rc::orphaned_cycle]
+
+    (syntax only, so that the generated gen/CycleGen.v can mention it; the
+    meaning is gen/CycleSkelLang.v.) One constructor per statement form of the
+    source:
+      WInitMap            let mut cycle_owned_refs = HashMap::default();
+      WInitWork           let mut discovered = vec![this];
+      WInitVisited        let mut visited = HashSet::default();
+      WWhilePop d body    while let Some(node) = discovered.pop() { body }      (d = PopBack)
+                                                 discovered.remove(0)           (d = PopFront)
+      WIfVisitedContinue  if visited.contains(&node) { continue; }
+      WMarkVisited        visited.insert(node);
+      WBorrowNode         let links = unsafe { node.as_ref().links().borrow() };
+      WForEntries         for (&link, &strong) in links.iter() { g_entry_body }
+      WReturnMap          cycle_owned_refs                                      (tail expression)
+      OTrace                    let cycle = cycle_refs(Link::forward(this.ptr));
+      OIfEmptyReturnNone        if cycle.is_empty() { return None; }
+      OAnyExternal              let has_external_owners = cycle.iter().any(|(item, &cycle_owned_refs)| g_external);
+      OIfExternalNoneElseSome   if has_external_owners { None } else { Some(cycle) }   (tail expression) *)
+Inductive popdir := PopBack | PopFront.
+Inductive wstmt :=
+| WInitMap | WInitWork | WInitVisited
+| WWhilePop (d : popdir) (body : list wstmt)
+| WIfVisitedContinue | WMarkVisited | WBorrowNode | WForEntries
+| WReturnMap.
+Inductive ostmt := OTrace | OIfEmptyReturnNone | OAnyExternal | OIfExternalNoneElseSome.
